@@ -3,7 +3,8 @@ freshly forked child of a process that has imported the library but never parsed
 string-hash seed than the harness.  Whatever a parse leaves behind in the harness process - on objects, classes or
 modules - cannot reach the child, and nothing that depends on set/dict iteration order of strings agrees by accident.
 
-protocol: one JSON request per line on stdin {"f", "toks", "lenient", "form"}; one JSON answer per line on stdout."""
+protocol: one JSON request per line on stdin ({"f", "toks", "lenient", "form"} for a parse, {"call": [module, function],
+"args": [...]} for any other driver function); one JSON answer per line on stdout."""
 import hashlib
 import json
 import os
@@ -15,6 +16,11 @@ def digest(text):
 
 
 def answer(req):
+    if "call" in req:   # any other driver: {"call": [module, function], "args": [...]} -> the function's JSON-able result
+        import importlib
+
+        mod, fn = req["call"]
+        return getattr(importlib.import_module(mod), fn)(*req["args"])
     from clikit.args import DefaultArgsParser
 
     from harness.props import argslib as L
